@@ -12,10 +12,14 @@ back byte-identical.
 -/
 import Cascette.Spec.Codec
 import Cascette.Proofs.Serial
+import Cascette.Proofs.SerialDl
+import Cascette.Proofs.SerialPatchIndex
 import Cascette.Model.RootFile
+import Cascette.Model.SerialTvfs
 namespace Cascette.Props.C08
 open Cascette Cascette.Model.Manifest Cascette.Model.Serial Cascette.Proofs.Manifest
 open Cascette.Proofs.Serial Cascette.Spec.Codec
+open Cascette.Model.SerialPatchIndex Cascette.Proofs.SerialPatchIndex
 
 /-! ### the abstract corollary -/
 
@@ -148,6 +152,157 @@ theorem size_overwide_esize_rejected_by_validate :
     parseSFile (serSFile ⟨1, 1, 300, 1, [], [⟨[7], 300⟩]⟩) = none := by
   constructor <;> decide
 
+/-! ### download manifest (V1, V2, V3; raw `has_checksum` / base-priority / reserved bytes) -/
+
+def downloadCodec : Codec Bytes DFile := ⟨parseDFile, buildDFile⟩
+
+/-- `download_parse_build`: a well-formed download manifest passes `validate` (the guard of
+`build`), and its serialisation parses back to it — whatever the `has_checksum` byte (0, 1 or any
+other non-zero value, re-emitted as read), the V3 base-priority and reserved bytes, and whatever
+trailing bytes follow. -/
+theorem download_parse_build (f : DFile) (h : DWf f) (trailing : Bytes) :
+    buildDFile f = some (serDFile f) ∧ parseDFile (serDFile f ++ trailing) = some f := by
+  refine ⟨?_, parseDFile_ser f h trailing⟩
+  unfold buildDFile
+  rw [dfileValid_of_wf f h]; rfl
+
+/-- `download_parse_wf`: whatever the download parser accepts is well formed (version 1–3,
+flag size ≤ 4, every entry carries a checksum iff the header byte is non-zero and flags of exactly
+the header's flag size, every tag mask has ⌈entries/8⌉ bytes, tag names are valid UTF-8). -/
+theorem download_parse_wf (b : Bytes) (f : DFile) (h : parseDFile b = some f) : DWf f :=
+  (parseDFile_inv h).1
+
+/-- every accepted download manifest is its own rebuild followed by ignored trailing bytes -/
+theorem download_accepted_is_own_rebuild (b : Bytes) (f : DFile) (h : parseDFile b = some f) :
+    ∃ t, b = serDFile f ++ t := (parseDFile_inv h).2
+
+theorem download_lawful : Lawful downloadCodec DWf where
+  parse_wf := download_parse_wf
+  parse_build := fun f h => by
+    refine ⟨serDFile f, ?_, ?_⟩
+    · simp only [downloadCodec]; exact (download_parse_build f h []).1
+    · have := (download_parse_build f h []).2
+      rw [List.append_nil] at this
+      simp only [downloadCodec]; exact this
+
+/-- `download_fixed_point`: C08 for the download manifest, every accepted input, V1–V3. -/
+theorem download_fixed_point : Stable downloadCodec := fixed_point_of_laws _ _ download_lawful
+
+/-- builder form, tied to C19: the value `DownloadManifestBuilder::build` produces (C19's
+`DManifest`, well formed by C19's `build_wf`) serialises — by C19's writer `serDownload` — to bytes
+that `<DownloadManifest as CascFormat>::parse` reads back as the same content (raw-header view of
+it), and `CascFormat::build` of that writes the same bytes again. -/
+theorem download_builder_form (m : DManifest) (h : DManifestWf m)
+    (hn : (m.tags.all fun t => validUtf8 t.name) = true) (trailing : Bytes) :
+    parseDFile (serDownload m ++ trailing) = some (DFile.ofManifest m) ∧
+    buildDFile (DFile.ofManifest m) = some (serDownload m) := by
+  have w := wf_ofManifest m h hn
+  have e := serDFile_ofManifest m h
+  have := download_parse_build _ w trailing
+  rw [e] at this
+  exact ⟨this.2, this.1⟩
+
+/-! ### patch index (header + block table + entry blocks 2 / 8) -/
+
+/-- the codec on the logical content (key size, entries): `CascFormat::build` of a patch index
+uses nothing else of the parsed value — the header is written afresh -/
+def pindexCodec : Codec Bytes PIdx := ⟨parsePIdx, buildPIdx⟩
+
+/-- `pindex_parse_build`: a well-formed value builds (no slice panic), and the file
+`PatchIndexBuilder::build` writes — fresh 43-byte header, block 1, block 2, block 8 — parses back
+to exactly that key size and those entries. -/
+theorem pindex_parse_build (v : PIdx) (h : PWf v) :
+    buildPIdx v = some (serPIdx v) ∧ parsePIdx (serPIdx v) = some v := by
+  refine ⟨?_, parsePIdx_ser v h⟩
+  unfold buildPIdx
+  rw [if_neg]
+  intro hc
+  have := h.small hc.2
+  omega
+
+/-- `pindex_parse_wf`: whatever the parser accepts — any header size (also one that puts block
+data over the descriptors), any extra header, any sequence of block types with the type 2 / type 8
+precedence of `parse_patch_index`, any block-8 data offset — is a well-formed value: keys are 16
+bytes and zero beyond the key size, a key size above 16 comes with no entries, sizes are `u32`.
+The rebuilt file holds TWO copies of the entry table, so its `u32` `data_size` is exact only for
+inputs below 2 GiB; that bound is the hypothesis. -/
+theorem pindex_parse_wf (b : Bytes) (v : PIdx) (h : parsePIdx b = some v) (hb : b.length < 2147483600) :
+    PWf v := parsePIdx_wf h hb
+
+/- full statement (NOT proved; false of the model for an accepted input of ≥ 2 GiB whose entry
+   table is larger than 2^31 bytes: `total_size as u32` wraps and the rebuilt file fails the
+   `data_size == len` check — not replayed on the real code, it needs a 2 GiB input):
+     theorem pindex_fixed_point : Stable pindexCodec -/
+
+/-- `pindex_fixed_point_partial`: C08 for the patch index, every accepted input below 2 GiB: the
+rebuild succeeds, re-parses to the same key size and entries, and the second build is
+byte-identical. (The first rebuild is in general NOT the input: the header, unknown blocks, slack
+and the block-8 copy are regenerated — `accepted_is_own_rebuild` does not hold for this format;
+the three CDN fixtures are byte-identical as a test.) -/
+theorem pindex_fixed_point_partial (b : Bytes) (v : PIdx) (h : parsePIdx b = some v)
+    (hb : b.length < 2147483600) : FixedPointAt pindexCodec b v := by
+  have w := pindex_parse_wf b v h hb
+  obtain ⟨h1, h2⟩ := pindex_parse_build v w
+  unfold FixedPointAt
+  simp only [pindexCodec]
+  refine ⟨serPIdx v, h1, h2, ?_⟩
+  intro v2 hv2
+  rw [h2] at hv2
+  have e : v2 = v := (Option.some.inj hv2).symm
+  subst e
+  exact ⟨rfl, h1⟩
+
+/-! ### TVFS: the full statement fails (findings `tvfs-rebuilt-not-parseable-cft-slack-crosses-offset-width`,
+`tvfs-rebuild-changes-content-cft-slack-crosses-offset-width`) -/
+
+/- full statement (does NOT hold of the tree):
+     ∀ es cftSize vfs, (vfsAcrossRebuild es cftSize vfs).2 = (vfsAcrossRebuild es cftSize vfs).1
+   i.e. the VFS table of an accepted file reads the same after `TvfsFile::build`. The build keeps the
+   VFS table bytes, drops the slack of the container table and writes the smaller size into the
+   header; the width of the cft-offset fields in the VFS table is a function of that size. -/
+
+open Cascette.Model.SerialTvfs in
+/-- counter-witness, kernel-checked, on C03's `offsSize`: a container table of 258 bytes with
+13-byte entries (flags 0, 9-byte EKeys) holds 19 entries and 11 bytes of slack; the rebuild states
+247 bytes, the offset width drops from 2 to 1 and the very same VFS table bytes (i) no longer
+parse (`VfsTableTruncated`), or (ii) parse to OTHER entries (a different cft offset and a spurious
+empty entry). Both pairs are replayed on the real `VfsTable::parse` / `ContainerFileTable` in every
+run (corpus/C08/witness-tvfs-vfs-width.case), the whole-file form by the `finding-tvfs-*` cases. -/
+theorem tvfs_rebuild_not_fixed_point_witness :
+    cftEntrySize 9 9 0 = 13 ∧ cftCount 13 258 = 19 ∧ rebuiltCftSize 13 258 = 247 ∧
+    Cascette.Model.TvfsPath.offsSize 258 = 2 ∧ Cascette.Model.TvfsPath.offsSize 247 = 1 ∧
+    vfsAcrossRebuild 13 258 [1, 0, 0, 0, 0, 0, 0, 0, 10, 0, 13] =
+      (some [⟨0, [(0, 10, 13)]⟩], none) ∧
+    vfsAcrossRebuild 13 258 [1, 0, 0, 0, 0, 0, 0, 0, 10, 0, 0] =
+      (some [⟨0, [(0, 10, 0)]⟩], some [⟨0, [(0, 10, 0)]⟩, ⟨10, []⟩]) ∧
+    vfsAcrossRebuild 13 258 [1, 0, 0, 0, 0, 0, 0, 0, 10, 0, 26, 1, 0, 0, 0, 0, 0, 0, 0, 7, 0, 13] =
+      (some [⟨0, [(0, 10, 26)]⟩, ⟨11, [(0, 7, 13)]⟩], none) := by
+  decide
+
+open Cascette.Model.SerialTvfs in
+/-- `_partial`: when the rebuilt container-table size keeps the offset width — in particular when
+the table carries no slack — the VFS table reads back exactly as before, for every table. -/
+theorem tvfs_vfs_stable_same_width_partial (es cftSize : Nat) (vfs : Cascette.Model.TvfsPath.Bytes)
+    (h : Cascette.Model.TvfsPath.offsSize (rebuiltCftSize es cftSize) =
+         Cascette.Model.TvfsPath.offsSize cftSize) :
+    (vfsAcrossRebuild es cftSize vfs).2 = (vfsAcrossRebuild es cftSize vfs).1 := by
+  unfold vfsAcrossRebuild vfsParse
+  simp only [h]
+
+open Cascette.Model.SerialTvfs in
+/-- no slack ⇒ the rebuilt size is the stated size (so the width is kept) -/
+theorem tvfs_no_slack_keeps_size (es cftSize : Nat) (h : cftSize % es = 0) :
+    rebuiltCftSize es cftSize = cftSize := by
+  unfold rebuiltCftSize cftCount
+  exact Nat.div_mul_cancel (Nat.dvd_of_mod_eq_zero h)
+
+/-- the hypotheses are satisfiable: 20 whole entries (260 bytes, width 2 before and after), and a
+table WITH slack that stays inside one width class (the two CDN fixtures with 5 / 20 slack bytes) -/
+example : Cascette.Model.TvfsPath.offsSize (Cascette.Model.SerialTvfs.rebuiltCftSize 13 260) =
+    Cascette.Model.TvfsPath.offsSize 260 ∧ 260 % 13 = 0 ∧
+    Cascette.Model.TvfsPath.offsSize (Cascette.Model.SerialTvfs.rebuiltCftSize 25 15505) =
+    Cascette.Model.TvfsPath.offsSize 15505 := by decide
+
 /-! ### root: the full statement fails (finding `root-accepted-not-rebuildable-no-records`) -/
 
 /- full statement (does NOT hold of the tree):
@@ -190,6 +345,44 @@ example : InstallWF ⟨2, some (20, 7, 0), [⟨[0x57], 1, [0x80]⟩],
     simp only [List.mem_singleton] at he
     subst he
     exact ⟨by decide, by decide, by decide, ⟨3, rfl, by decide⟩⟩
+
+/-- a V3 download manifest with `has_checksum` byte 2, flag size 1, base priority byte 0xFE,
+non-zero reserved bytes, one entry and one tag -/
+example : DWf ⟨3, 2, 1, 0xFE, [1, 2, 3], [⟨List.replicate 16 9, 5, -3, some 77, some [0x80]⟩],
+    [⟨[0x57], 1, [0x80]⟩]⟩ := by
+  refine ⟨by decide, by decide, by decide, by decide, by decide, by decide, by decide, ?_, by decide, ?_⟩
+  · intro t ht
+    simp only [List.mem_singleton] at ht
+    subst ht
+    exact ⟨by decide, by decide, by decide⟩
+  · intro e he
+    simp only [List.mem_singleton] at he
+    subst he
+    exact ⟨by decide, by decide, by decide, by decide, ⟨77, rfl, by decide⟩, ⟨[0x80], rfl, rfl⟩⟩
+
+/-- a patch index value with key size 9 and one entry (keys zero beyond byte 9) -/
+example : PWf ⟨9, [⟨List.replicate 9 7 ++ List.replicate 7 0, 1000, List.replicate 9 8 ++ List.replicate 7 0,
+    2000, 1500, 1, List.replicate 9 9 ++ List.replicate 7 0⟩]⟩ := by
+  refine ⟨by decide, fun _ => by decide, ?_, by decide⟩
+  intro e he
+  simp only [List.mem_singleton] at he
+  subst he
+  exact ⟨⟨by decide, by decide⟩, ⟨by decide, by decide⟩, ⟨by decide, by decide⟩, by decide, by decide, by decide⟩
+
+/-- the hypotheses of `download_builder_form` hold of a V3 builder value (checksums, flag size 1,
+base priority -2, one entry, one tag) -/
+example : DManifestWf ⟨3, true, 1, -2, [⟨List.replicate 16 9, 5, -3, some 77, some [0x80]⟩],
+    [⟨[0x57], 1, [0x80]⟩]⟩ ∧
+    (([⟨[0x57], 1, [0x80]⟩] : List Tag).all fun t => validUtf8 t.name) = true := by
+  refine ⟨⟨by decide, by decide, by decide, by decide, by decide, by decide, by decide, by decide, ?_, ?_⟩, by decide⟩
+  · intro t ht
+    simp only [List.mem_singleton] at ht
+    subst ht
+    exact ⟨by decide, by decide, by decide⟩
+  · intro e he
+    simp only [List.mem_singleton] at he
+    subst he
+    exact ⟨by decide, by decide, by decide, by decide, ⟨77, rfl, by decide⟩, ⟨[0x80], rfl, rfl⟩⟩
 
 example : ZWf ⟨2, 1, 9, [1, 2], [3], [4, 5]⟩ := ⟨rfl, rfl, by decide, by decide, by decide, by decide⟩
 
